@@ -403,7 +403,7 @@ func knownSignature(q Query, classes []string, n nodeAnswer, e esAnswer) string 
 	case isImportKind(q.Kind) && bare && has("subpath-no-exports") && hasPercentEscape(q.Spec):
 		// same decoding for "pkg/sub%20path.js" when the package has no "exports" (legacy subpath)
 		return "C11-percent-bare-import"
-	case bare && strings.ContainsAny(q.Spec, "?#") && (throughMap || refusalCodes[n.Code] && len(e.Errors) == 0 && e.Suffix != ""):
+	case bare && strings.ContainsAny(q.Spec, "?#") && (throughMap || has("outer-candidate-has-exports") || refusalCodes[n.Code] && len(e.Errors) == 0 && e.Suffix != ""):
 		// Node builds a URL from the matched exports target, so the ?query/#hash of the specifier takes part in
 		// key matching and in "*" substitution; esbuild instead retries the whole resolution without the suffix
 		return "C11-suffix-bare-through-exports"
@@ -414,12 +414,33 @@ func knownSignature(q Query, classes []string, n nodeAnswer, e esAnswer) string 
 		// "pkg/lib/../x" against "./lib/*": Node refuses a "*" match that contains a ".", ".." or "node_modules"
 		// segment; esbuild's check skips the first segment of the match (and encoded/case variants everywhere)
 		return "C11-dot-segment-in-subpath"
+	case isImportKind(q.Kind) && hashImport && has("imports-to-package") && hasPercentEscape(q.Spec):
+		// an imports entry that maps to another package ("#dep/*": "pb/*"): the remapped specifier is resolved
+		// like a bare import, with the same URL decoding that esbuild lacks
+		return "C11-percent-bare-import"
+	case (bare || hashImport) && has("pattern-base-equals-subpath"):
+		// "./lib/a*" must not match the subpath "./lib/a" (Node requires a non-empty match: subpath at least as
+		// long as the key); esbuild lets "*" match the empty string and never reaches the next pattern
+		return "C11-pattern-empty-match"
+	case bare && n.Code == "" && e.Path == n.Path && onlyNotADirectory(e.Errors):
+		// a nearer installation of the package has a regular file where the subpath needs a directory: esbuild
+		// finds the right file farther up but also logs "Cannot read directory …: not a directory" as an error
+		return "C11-enotdir-spurious-error"
 	case has("target-encoded-segment"):
 		// a target with a percent-encoded or differently-cased ".", ".." or "node_modules" segment is invalid for
 		// Node; esbuild's segment check compares the raw text case-sensitively and decodes afterwards
 		return "C11-encoded-segment-in-target"
 	}
 	return ""
+}
+
+func onlyNotADirectory(errs []string) bool {
+	for _, e := range errs {
+		if !strings.HasPrefix(e, "Cannot read directory ") || !strings.Contains(e, "not a directory") {
+			return false
+		}
+	}
+	return len(errs) > 0
 }
 
 func judgeTree(t Tree, qs []Query) []vdrv.Verdict {
@@ -502,7 +523,11 @@ func showNode(root string, a nodeAnswer) string {
 
 func showEs(root string, a esAnswer) string {
 	if len(a.Errors) > 0 {
-		return "error: " + clip(strings.ReplaceAll(strings.Join(a.Errors, "; "), root, "$ROOT"), 300)
+		s := "error: " + clip(strings.ReplaceAll(strings.Join(a.Errors, "; "), root, "$ROOT"), 300)
+		if a.Path != "" {
+			s += " (with path " + rel(root, a.Path) + ")"
+		}
+		return s
 	}
 	s := rel(root, a.Path)
 	if a.Suffix != "" {
@@ -844,6 +869,15 @@ func (m *model) classify(q Query) (classes []string, nontrivial bool) {
 	_ = scopeDir
 	mapLabels := func(prefix string, raw json.RawMessage, subpath string) {
 		nkeys, key, target, ok := entryFor(raw, subpath, prefix == "imports")
+		var allKeys map[string]json.RawMessage
+		if json.Unmarshal(raw, &allKeys) == nil {
+			for k := range allKeys {
+				if strings.HasSuffix(k, "*") && k[:len(k)-1] == subpath {
+					add("pattern-base-equals-subpath")
+					break
+				}
+			}
+		}
 		if nkeys >= 2 {
 			add(prefix + "-keys>=2")
 			nontrivial = true
@@ -959,6 +993,18 @@ func (m *model) classify(q Query) (classes []string, nontrivial bool) {
 							}
 						} else if sub == "" {
 							add("index")
+						}
+						// (labels only) a farther installation of the same name that has an exports map: CommonJS
+						// resolution falls through to it when the nearer one has no such file
+						for o := d; o != ""; {
+							o = parent(o)
+							if o != "node_modules" && !strings.HasSuffix(o, "/node_modules") {
+								oreal, _ := m.resolveLink(join(join(o, "node_modules"), name))
+								if p, ok := m.pkgAt(oreal); ok && len(p.Exports) > 0 && string(p.Exports) != "null" {
+									add("outer-candidate-has-exports")
+									break
+								}
+							}
 						}
 						break
 					}
